@@ -716,8 +716,19 @@ func RunPipe(r *Run) {
 		doc2, desc2 := genPipeDoc(r, cfg2.ND)
 		docs = append(docs, doc2)
 		cfgs = append(cfgs, cfg2)
-		reuse = true
-		desc += " ; then(reuse) " + desc2
+		// (one time in four every call passes nil: what a call leaves behind then reaches the next one only through
+		// whatever the package keeps behind the API)
+		reuse = c.Intn("chainreuse", 4) != 0
+		desc += fmt.Sprintf(" ; then(reuse=%v) ", reuse) + desc2
+		if c.Intn("third", 3) == 0 {
+			// a third parse on the same object: when the second one failed, it is handed the first result again -
+			// the object a failed call was given stays the caller's and stays reusable
+			cfg3 := drawCfg(c, true)
+			doc3, desc3 := genPipeDoc(r, cfg3.ND)
+			docs = append(docs, doc3)
+			cfgs = append(cfgs, cfg3)
+			desc += " ; then(reuse) " + desc3
+		}
 	}
 	K := 3
 	if r.thorough() {
